@@ -57,6 +57,13 @@ Step ==
                 PrintT(<<"REJECT", ToJson([trace |-> e.trace, line |-> l, why |-> "a metric did not reach the backend under the prefixed name (exactly once)",
                                            expected |-> exp, logged |-> [rtt |-> e.rtt, limit |-> e.limit], op |-> [op |-> "naming", ctor |-> e.ctor, prefix |-> e.prefix]])>>)
      ELSE IF e.ev = "NamingSkipped" THEN UNCHANGED <<ok, cfg, s>>
+     ELSE IF e.ev = "Shared"
+     THEN \* a backend metric that exists already (a second registry over the same backend and prefix, a metric registered by
+          \* the application): one more sample forwarded under that name is one more sample in that backend metric
+          /\ UNCHANGED <<ok, cfg, s>>
+          /\ e.second # e.first + 1 =>
+                PrintT(<<"REJECT", ToJson([trace |-> e.trace, line |-> l, why |-> "a sample forwarded under a name the backend already holds did not reach that backend metric",
+                                           expected |-> [second |-> e.first + 1], logged |-> [first |-> e.first, second |-> e.second], op |-> [op |-> "shared", ctor |-> e.what, prefix |-> "svc"]])>>)
      ELSE IF e.ev = "Restart"
      THEN \* Start, a poll, Stop, the supplier's value changes, Start again: the backend metric shows the value polled in each period
           /\ UNCHANGED <<ok, cfg, s>>
